@@ -25,6 +25,10 @@
 //     dumps a fixed canary set (all statement kinds; plain lists and leaf-lists) and the dump
 //     must equal the one made by a fresh process that handled nothing else ("processed alone");
 //     a difference is bisected to the first round that causes it;
+//   - every other round the shared set is a directory set: files on the search path, modules read
+//     by name, import / include statements pinned to revision-dates that are not the loaded
+//     revision; readers resolve prefixes against it (absolute prefixed Find, FindModuleByPrefix);
+//     every set restricts built-in types with the keywords min / max (shared parent ranges);
 //   - the conditions that put the allow-listed write sites (harness/cmd/extract-access/
 //     allow.json) outside the claim are asserted: ToEntry of a processed module returns the entry
 //     cached by Process; Find is called with paths of existing nodes only and afterwards no root
@@ -46,6 +50,7 @@ import (
 	"math/rand"
 	"os"
 	"os/exec"
+	"path/filepath"
 	"runtime/debug"
 	"sort"
 	"strings"
@@ -72,6 +77,9 @@ type genStats struct {
 // container, leaf, typedef, identity) are always there.
 type palette struct {
 	uses, leafList, list, choice, nested, rpc, action, notification, anydata, augment, deviation, submodule bool
+	// pins (not a staged kind, set by the caller): import and include statements carry a
+	// revision-date that is not the revision that gets loaded
+	pins bool
 }
 
 var paletteKinds = []string{"uses", "leaf-list", "list", "choice", "nested", "rpc", "action", "notification", "anydata", "augment", "deviation", "submodule"}
@@ -129,8 +137,17 @@ func genSet(r *rand.Rand, withErrors bool, pal palette) ([]modSrc, genStats) {
 	nm := 2 + r.Intn(3)
 	sub := pal.submodule && r.Intn(2) == 0
 	var out []modSrc
+	// restrictions that use the keywords min / max directly on a built-in type: their parent
+	// range is a package-level table (Int8Range ... Uint64Range; Uint64Range for every length)
+	builtinRestr := []string{
+		"type int8 { range \"min..10\"; }", "type int16 { range \"-5..max\"; }", "type int32 { range \"min..max\"; }",
+		"type int64 { range \"min..0 | 5..max\"; }", "type uint8 { range \"1..max\"; }", "type uint16 { range \"min..100\"; }",
+		"type uint32 { range \"min..max\"; }", "type uint64 { range \"10..max\"; }",
+		"type decimal64 { fraction-digits 2; range \"min..5.5\"; }", "type string { length \"1..max\"; }",
+		"type binary { length \"min..16\"; }", "type string { length \"min..4 | 8..max\"; }",
+	}
 	leafType := func(i int, others []int) string {
-		switch k := r.Intn(8); {
+		switch k := r.Intn(12); {
 		case k == 0:
 			return "type string;"
 		case k == 1:
@@ -146,8 +163,12 @@ func genSet(r *rand.Rand, withErrors bool, pal palette) ([]modSrc, genStats) {
 			return fmt.Sprintf("type p%d:t%d;", j, j)
 		case k == 6:
 			return fmt.Sprintf("type t%d; mandatory true;", i)
-		default:
+		case k == 7:
 			return "type int32 { range \"1..10\"; } default 5;"
+		case k == 8:
+			return fmt.Sprintf("type r%d { range \"0..max\"; }", i)
+		default:
+			return builtinRestr[r.Intn(len(builtinRestr))]
 		}
 	}
 	var body func(b *strings.Builder, i int, others []int, depth int, ind string)
@@ -206,13 +227,22 @@ func genSet(r *rand.Rand, withErrors bool, pal palette) ([]modSrc, genStats) {
 		var b strings.Builder
 		fmt.Fprintf(&b, "module m%d {\n  yang-version 1.1;\n  namespace \"urn:m%d\";\n  prefix p%d;\n", i, i, i)
 		for _, j := range others {
-			fmt.Fprintf(&b, "  import m%d { prefix p%d; }\n", j, j)
+			if pal.pins && r.Intn(2) == 0 {
+				fmt.Fprintf(&b, "  import m%d { prefix p%d; revision-date 2019-0%d-01; }\n", j, j, 1+r.Intn(9))
+			} else {
+				fmt.Fprintf(&b, "  import m%d { prefix p%d; }\n", j, j)
+			}
 		}
 		if i == 0 && sub {
-			b.WriteString("  include s0;\n")
+			if pal.pins && r.Intn(2) == 0 {
+				b.WriteString("  include s0 { revision-date 2019-01-01; }\n")
+			} else {
+				b.WriteString("  include s0;\n")
+			}
 		}
 		fmt.Fprintf(&b, "  typedef t%d { type string; default \"d%d\"; }\n", i, i)
 		fmt.Fprintf(&b, "  typedef e%d { type enumeration { enum one; enum two; } default one; }\n", i)
+		fmt.Fprintf(&b, "  typedef r%d { type int16 { range \"min..100\"; } }\n", i)
 		if len(others) > 0 {
 			j := others[0]
 			fmt.Fprintf(&b, "  typedef u%d { type p%d:t%d; }\n", i, j, j)
@@ -312,11 +342,26 @@ func hashSet(srcs []modSrc) string {
 // ---------------------------------------------------------------------------------------------
 // pipeline: load, process, dump
 
-func load(srcs []modSrc) (*yang.Modules, []string) {
+// load runs NewModules, the reading of the sources and Process.  With dir == "" the sources are
+// parsed from strings; otherwise they have been written to dir (writeSet) and are loaded the way
+// a tool does it: the directory is put on the search path and the modules are read by name
+// (submodules come in through their include statements, from the path).
+func load(srcs []modSrc, dir string) (*yang.Modules, []string) {
 	ms := yang.NewModules()
+	if dir != "" {
+		ms.AddPath(dir)
+	}
 	for _, s := range srcs {
-		if err := ms.Parse(s.Text, s.Name); err != nil {
-			return ms, []string{"parse: " + err.Error()}
+		var err error
+		switch {
+		case dir == "":
+			err = ms.Parse(s.Text, s.Name)
+		case strings.HasPrefix(s.Text, "submodule"):
+		default:
+			err = ms.Read(strings.TrimSuffix(s.Name, ".yang"))
+		}
+		if err != nil {
+			return ms, []string{"read: " + err.Error()}
 		}
 	}
 	var errs []string
@@ -325,6 +370,24 @@ func load(srcs []modSrc) (*yang.Modules, []string) {
 	}
 	sort.Strings(errs)
 	return ms, errs
+}
+
+// writeSet puts the sources of a set into a directory of its own below the working directory
+// of the process (which is otherwise empty: goyang looks for files in "." first).
+func writeSet(name string, srcs []modSrc) string {
+	dir, err := filepath.Abs(name)
+	if err != nil {
+		lib.Fatal("%v", err)
+	}
+	if err := os.MkdirAll(dir, 0o755); err != nil {
+		lib.Fatal("%v", err)
+	}
+	for _, s := range srcs {
+		if err := os.WriteFile(filepath.Join(dir, s.Name), []byte(s.Text), 0o644); err != nil {
+			lib.Fatal("%v", err)
+		}
+	}
+	return dir
 }
 
 func modNames(ms *yang.Modules) []string {
@@ -402,16 +465,16 @@ func describe(e *yang.Entry) string {
 		fmt.Fprintf(&b, " im=%s/%v", im, err != nil)
 		fmt.Fprintf(&b, " def=%q la=%s", e.DefaultValues(), listAttr(e))
 		if e.Type != nil {
-			fmt.Fprintf(&b, " type=%s/%v", e.Type.Name, e.Type.Kind)
+			fmt.Fprintf(&b, " type=%s/%v range=%v length=%v", e.Type.Name, e.Type.Kind, e.Type.Range, e.Type.Length)
 		}
 		return b.String()
 	})
 }
 
 // pipeline is the full load-process-convert-walk run on a private module set.
-func pipeline(srcs []modSrc) string {
+func pipeline(srcs []modSrc, dir string) string {
 	return guard(func() string {
-		ms, errs := load(srcs)
+		ms, errs := load(srcs, dir)
 		var b strings.Builder
 		fmt.Fprintf(&b, "errors %q\n", errs)
 		for _, name := range modNames(ms) {
@@ -507,6 +570,9 @@ func script(ms *yang.Modules, roots map[string]*yang.Entry, r *rand.Rand) (nsFir
 		}
 		if pfx := prefixFor(ms, from.e, n.mod); pfx != "" {
 			rest = append(rest, op{Kind: "find-from", Mod: from.mod, Path: from.path, Arg: "/" + pfx + ":" + rel})
+			if len(n.path) == 1 {
+				rest = append(rest, op{Kind: "fmbp", Mod: from.mod, Path: from.path, Arg: pfx})
+			}
 		}
 		if len(n.path) > 1 && r.Intn(4) == 0 {
 			up := strings.Join(n.path[:len(n.path)-1], "/") + "/../" + n.path[len(n.path)-2] + "/./" + n.path[len(n.path)-1]
@@ -582,6 +648,12 @@ func run(ms *yang.Modules, roots map[string]*yang.Entry, o op) string {
 		case "im":
 			s, err := e.InstantiatingModule()
 			return fmt.Sprintf("%s/%v", s, err != nil)
+		case "fmbp":
+			m := yang.FindModuleByPrefix(e.Node, o.Arg)
+			if m == nil {
+				return "nil"
+			}
+			return m.Name
 		case "errs-at":
 			// the order is part of the answer here (GetErrors sorts)
 			var es []string
@@ -682,6 +754,7 @@ type roundResult struct {
 	Kinds          []string `json:"kinds"` // optional statement kinds the sets of this round may use
 	// Canary: not a round but the check at the end of a process (see canarySet)
 	Canary bool `json:"canary,omitempty"`
+	DirSet bool `json:"dir_set,omitempty"` // the shared set was loaded from a directory on the search path
 }
 
 func roundSeed(seed int64, round int) int64 { return seed*1000003 + int64(round)*7919 + 17 }
@@ -702,7 +775,22 @@ func doRound(seed int64, round, n, batch int) roundResult {
 	pal, kinds := paletteFor(seed, round, batch)
 	res.Kinds = kinds
 	withErrors := round%4 == 3
-	shared, st := genSet(r, withErrors, pal)
+	// Every other round the shared set is a DIRECTORY set: its files are written to a directory
+	// that is put on the search path and stays there, the modules are read by name, and import /
+	// include statements carry revision-dates that are not the loaded revision.  Private sets are
+	// directory sets at random.  (Files are written here, before any goroutine runs; this does
+	// not touch goyang.)
+	sharedDir := ""
+	spal := pal
+	if round%2 == 1 {
+		spal.pins = true
+	}
+	shared, st := genSet(r, withErrors, spal)
+	if round%2 == 1 {
+		sharedDir = writeSet(fmt.Sprintf("r%d/shared", round), shared)
+		res.DirSet = true
+	}
+	defer os.RemoveAll(fmt.Sprintf("r%d", round))
 	res.SharedHash = hashSet(shared)
 	res.Modules = st.modules
 	res.WithErrors = withErrors
@@ -712,15 +800,25 @@ func doRound(seed int64, round, n, batch int) roundResult {
 	nr := n - np
 	// Some pipelines work through three sets so that they are still running while the readers
 	// query the shared set; with many pipelines the rest do one set each (time budget).
-	privs := make([][][]modSrc, np)
+	type privSet struct {
+		srcs []modSrc
+		dir  string
+	}
+	privs := make([][]privSet, np)
 	for k := range privs {
 		sets := 3
 		if np > 4 && k >= np/8 {
 			sets = 1
 		}
 		for q := 0; q < sets; q++ {
-			set, _ := genSet(r, r.Intn(5) == 0, pal)
-			privs[k] = append(privs[k], set)
+			ppal := pal
+			ppal.pins = r.Intn(2) == 0
+			set, _ := genSet(r, r.Intn(5) == 0, ppal)
+			ps := privSet{srcs: set}
+			if r.Intn(3) == 0 {
+				ps.dir = writeSet(fmt.Sprintf("r%d/p%d-%d", round, k, q), set)
+			}
+			privs[k] = append(privs[k], ps)
 		}
 	}
 
@@ -748,7 +846,7 @@ func doRound(seed int64, round, n, batch int) roundResult {
 				func() {
 					defer close(sharedReady)
 					builderPanic = guard(func() string {
-						shMS, shErrs = load(shared)
+						shMS, shErrs = load(shared, sharedDir)
 						for _, name := range modNames(shMS) {
 							shRoots[name] = yang.ToEntry(shMS.Modules[name])
 						}
@@ -760,7 +858,7 @@ func doRound(seed int64, round, n, batch int) roundResult {
 				}()
 			}
 			for _, set := range privs[k] {
-				gotDump[k] = append(gotDump[k], pipeline(set))
+				gotDump[k] = append(gotDump[k], pipeline(set.srcs, set.dir))
 			}
 		}(k)
 	}
@@ -805,7 +903,7 @@ func doRound(seed int64, round, n, batch int) roundResult {
 		}
 		res.Ops = len(ops)
 		res.FirstTimeNS = len(nsOps)
-		refMS, _ := load(shared)
+		refMS, _ := load(shared, sharedDir)
 		refRoots := map[string]*yang.Entry{}
 		for _, name := range modNames(refMS) {
 			refRoots[name] = yang.ToEntry(refMS.Modules[name])
@@ -839,7 +937,7 @@ func doRound(seed int64, round, n, batch int) roundResult {
 	for k := 0; k < np; k++ {
 		for q, set := range privs[k] {
 			res.Evals++
-			if want := pipeline(set); gotDump[k][q] != want {
+			if want := pipeline(set.srcs, set.dir); gotDump[k][q] != want {
 				res.Problems = append(res.Problems, fmt.Sprintf("pipeline %d, set %d: dump of the concurrent run differs from the sequential run (%d vs %d bytes)", k, q, len(gotDump[k][q]), len(want)))
 			}
 		}
@@ -852,11 +950,15 @@ func showRound(seed int64, round, batch int) {
 	r := rand.New(rand.NewSource(roundSeed(seed, round)))
 	pal, kinds := paletteFor(seed, round, batch)
 	fmt.Printf("---- round %d = stage %d of its process; optional statement kinds in use: %v\n", round, round%batch, kinds)
+	pal.pins = round%2 == 1
+	if pal.pins {
+		fmt.Printf("---- the shared set of this round is a directory set (files on the search path, modules read by name)\n")
+	}
 	shared, _ := genSet(r, round%4 == 3, pal)
 	for _, s := range shared {
 		fmt.Printf("---- %s\n%s", s.Name, s.Text)
 	}
-	ms, errs := load(shared)
+	ms, errs := load(shared, "")
 	fmt.Printf("---- Process errors: %q\n", errs)
 	roots := map[string]*yang.Entry{}
 	for _, name := range modNames(ms) {
@@ -878,7 +980,7 @@ func showRound(seed int64, round, batch int) {
 // processed before or alongside must not show.  (It runs after the last round only, because it
 // converts every statement kind and would spoil the cold introduction of kinds otherwise.)
 func canarySet() []modSrc {
-	full := palette{true, true, true, true, true, true, true, true, true, true, true, true}
+	full := palette{true, true, true, true, true, true, true, true, true, true, true, true, false}
 	set, _ := genSet(rand.New(rand.NewSource(424242)), false, full)
 	return append(set, modSrc{"plain.yang", `module plain {
   yang-version 1.1;
@@ -921,7 +1023,7 @@ func child(seed int64, from, to, n, batch int) {
 			lib.Fatal("canary: %v", err)
 		}
 		rr := roundResult{Round: to - 1, Canary: true, Evals: 1}
-		if got := pipeline(canarySet()); got != string(want) {
+		if got := pipeline(canarySet(), ""); got != string(want) {
 			rr.Problems = []string{"INDEPENDENCE: the canary module set processed in this process after its rounds differs from the same set processed alone in a fresh process: " + firstDiff(string(want), got)}
 		}
 		enc.Encode(rr)
@@ -934,7 +1036,14 @@ func makeCanary() string {
 	if err != nil {
 		lib.Fatal("executable: %v", err)
 	}
-	out, err := exec.Command(self, "-canary").Output()
+	work, err := os.MkdirTemp("", "c19-work-*")
+	if err != nil {
+		lib.Fatal("%v", err)
+	}
+	defer os.RemoveAll(work)
+	cc := exec.Command(self, "-canary")
+	cc.Dir = work
+	out, err := cc.Output()
 	if err != nil || len(out) == 0 {
 		lib.Fatal("canary process: %v", err)
 	}
@@ -988,6 +1097,14 @@ func runBatch(seed int64, from, to, n, batch int, limit time.Duration) batchOutc
 	cmd := exec.Command(self, "-child", "-seed", fmt.Sprint(seed), "-from", fmt.Sprint(from), "-to", fmt.Sprint(to), "-n", fmt.Sprint(n),
 		"-batch", fmt.Sprint(batch), "-canaryfile", canaryFile)
 	cmd.Env = append(os.Environ(), "GORACE=halt_on_error=1 exitcode=66")
+	// an empty working directory of its own: goyang looks for module files in "." before the
+	// search path, and the directory sets of the rounds are written below it
+	work, err := os.MkdirTemp("", "c19-work-*")
+	if err != nil {
+		lib.Fatal("%v", err)
+	}
+	defer os.RemoveAll(work)
+	cmd.Dir = work
 	var so, se bytes.Buffer
 	cmd.Stdout, cmd.Stderr = &so, &se
 	if err := cmd.Start(); err != nil {
@@ -1071,7 +1188,7 @@ func main() {
 	parFlag := flag.Int("par", 0, "child processes at a time (default 4 quick / 12 thorough)")
 	f := lib.ParseFlags()
 	if *isCanary {
-		os.Stdout.WriteString(pipeline(canarySet()))
+		os.Stdout.WriteString(pipeline(canarySet(), ""))
 		return
 	}
 	if *isChild {
@@ -1110,7 +1227,7 @@ func main() {
 		"the concurrent phase first in a cold process, the sequential reference afterwards; evaluations = reader answers and pipeline dumps compared with the sequential run"
 	distinct := lib.NewDistinct()
 	var mu sync.Mutex
-	var nodes, ops, firstNS, mods, withErr, roundsDone, unexpected, anomalies, canaries int64
+	var nodes, ops, firstNS, mods, withErr, roundsDone, unexpected, anomalies, canaries, dirSets int64
 	type job struct{ from, to int }
 	jobs := make(chan job)
 	var wg sync.WaitGroup
@@ -1145,6 +1262,9 @@ func main() {
 					}
 					if rr.UnexpectedErrs {
 						unexpected++
+					}
+					if rr.DirSet {
+						dirSets++
 					}
 					anomalies += int64(rr.SeqAnomalies)
 					if rr.Nontrivial {
@@ -1224,6 +1344,7 @@ func main() {
 	res.Distribution["pipelines_per_round"] = n / 2
 	res.Distribution["shared_sets_with_process_errors"] = withErr
 	res.Distribution["shared_sets_unexpectedly_rejected"] = unexpected
+	res.Distribution["shared_sets_loaded_from_a_directory_on_the_search_path_with_pinned_revision_dates"] = dirSets
 	res.Distribution["sequential_answers_that_are_wrong_lookups_or_panics"] = anomalies
 	if roundsDone > 0 && unexpected*2 > roundsDone {
 		lib.Fatal("the generator is out of date: %d of %d module sets meant to be valid do not process cleanly", unexpected, roundsDone)
@@ -1238,6 +1359,8 @@ func main() {
 		"supporting run, not the proof: schedules are sampled; the race detector reports only races that happen in an executed schedule",
 		"reader paths: only existing nodes; the guards of the allow-list (allow.json) are asserted after every round",
 		"independence: after its last round every child process dumps a fixed canary module set (all statement kinds, plain lists and leaf-lists); the dump must equal the one a fresh process makes of the same set alone; a difference is bisected to the first round that causes it",
+		"directory sets: every other shared set (and a third of the private sets) is written to a directory that stays on the search path and is loaded by Read; its import / include statements carry revision-dates that are not the loaded revision; readers resolve prefixes (absolute prefixed Find, FindModuleByPrefix) against it",
+		"restrictions with the keywords min / max directly on built-in types (range on all integer types and decimal64, length on string and binary) occur in every set, so that the package-level range tables are the parents in concurrent pipelines",
 		"cold start: each child process begins with the concurrent phase (nothing converted before); statement kinds are introduced one per round within a process, so first-use writes of process-wide tables meet concurrent goroutines",
 		fmt.Sprintf("child processes run with GORACE=halt_on_error=1 exitcode=66, %d at a time, %d rounds each", par, batch))
 	if int(roundsDone) < total && len(res.Disagreements) == 0 {
@@ -1275,6 +1398,7 @@ func replay(f *lib.Flags, n, batch int) {
 	// the program of the round: the shared module set (the private sets and the reader script
 	// derive from the same seed; `-show <round> -seed <seed> -batch <b>` prints script and answers)
 	pal, kinds := paletteFor(ri.Seed, ri.Round, batch)
+	pal.pins = ri.Round%2 == 1
 	shared, _ := genSet(rand.New(rand.NewSource(roundSeed(ri.Seed, ri.Round))), ri.Round%4 == 3, pal)
 	fmt.Printf("replay: seed %d, rounds %d..%d of one fresh process (the recorded round is the last), %d goroutines;\n"+
 		"optional statement kinds of round %d: %v; its shared module set %s:\n", ri.Seed, first, ri.Round, n, ri.Round, kinds, hashSet(shared))
